@@ -293,8 +293,9 @@ impl<CS: CLCiphersuite> ZKPoK<CL03<CS>> {
             let ai = &a_bases.0.get(*i).expect(
                 "unreaveled_message_indexes not valid with respect to the commitment_pk.g_bases!",
             );
+            // commit to m_i under its own base a_i (the proof below is made and verified with a_i)
             let cmi =
-                Commitment::<CL03<CS>>::commit_with_pk(&[mi.clone()], signer_pk, a_bases, None)
+                Commitment::<CL03<CS>>::commit_with_pk(messages, signer_pk, a_bases, Some(&[*i]))
                     .cl03Commitment()
                     .to_owned();
             let proof_mi = NISPSecrets::nisp2sec_generate_proof::<CS>(
